@@ -19,7 +19,19 @@ import (
 
 var ErrInjected = errors.New("crash: injected step failure")
 
+// Gated is a goroutine parked at the start of a database transaction (transaction-level scheduling, C17).
+type Gated struct {
+	Name string
+	ch   chan struct{}
+}
+
+// Release lets the parked transaction proceed.
+func (g *Gated) Release() { close(g.ch) }
+
 type Hook struct {
+	// GateOn: when set, every Read / Write of the database client parks at its start until released.
+	GateOn  bool
+	pending []*Gated
 	mu      sync.Mutex
 	Enabled bool
 	Mode    string // "count" | "kill" | "error"
@@ -83,13 +95,53 @@ type clientWrap struct {
 	h *Hook
 }
 
+// gate parks the calling goroutine until the explorer releases it.
+func (h *Hook) gate(name string) {
+	h.mu.Lock()
+	if !h.GateOn {
+		h.mu.Unlock()
+		return
+	}
+	g := &Gated{Name: name, ch: make(chan struct{})}
+	h.pending = append(h.pending, g)
+	h.mu.Unlock()
+	<-g.ch
+}
+
+// SetGate switches transaction gating on or off; switching it off releases everything that is parked.
+func (h *Hook) SetGate(on bool) {
+	h.mu.Lock()
+	h.GateOn = on
+	p := h.pending
+	if !on {
+		h.pending = nil
+	}
+	h.mu.Unlock()
+	if !on {
+		for _, g := range p {
+			g.Release()
+		}
+	}
+}
+
+// TakePending removes and returns the parked transactions that have arrived so far.
+func (h *Hook) TakePending() []*Gated {
+	h.mu.Lock()
+	defer h.mu.Unlock()
+	p := h.pending
+	h.pending = nil
+	return p
+}
+
 func (c clientWrap) Read(ctx context.Context, op func(context.Context, db.ReadOnly) error) error {
+	c.h.gate("READ")
 	return c.Client.Read(ctx, func(ctx context.Context, ro db.ReadOnly) error {
 		return op(ctx, roWrap{ReadOnly: ro, h: c.h})
 	})
 }
 
 func (c clientWrap) Write(ctx context.Context, op func(context.Context, db.Transaction) error) error {
+	c.h.gate("WRITE")
 	err := c.Client.Write(ctx, func(ctx context.Context, tx db.Transaction) error {
 		if err := op(ctx, txWrap{Transaction: tx, h: c.h}); err != nil {
 			return err
